@@ -2,11 +2,15 @@
    Proved for every store content, range, refusal pattern and configuration with persistence: everything the reply writes
    carries PossDupFlag=Y and is either a SequenceReset-GapFill (123=Y, 36 set) or a stored APPLICATION message replayed
    under its original number with its original type and body and an OrigSendingTime; the store is not modified.
-   `_partial`: the contiguity / exact-end clause (the cover chain from BeginSeqNo to min(EndSeqNo,last)+1) is evaluated
-   on every trace by c03_reply_check (spec predicate, codes 302/304/308) and not proved; byte-level body identity across
-   parse and rebuild is C10/C11's (codec area) and is compared byte-for-byte by the stream. *)
+   Contiguity / exact end (c03_reply_exact_cover): for every store content, range [b, e], refusal pattern and configuration,
+   the reply the model writes passes the very predicate the driver evaluates on observed replies (c03_reply_check = []):
+   it starts at BeginSeqNo, every gap fill covers only numbers that need no replay (administrative, refused or not stored)
+   and points at the next number, every replay is the stored message, and the cover ends at min(EndSeqNo, last)+1; nothing
+   is written for an empty range.  Hypothesis: the last number of the clipped range is in the store (with persistence) —
+   discharged for every reachable state by the store-completeness invariant (c03_store_complete, c03_reachable_reply_exact).  Byte-level body identity across parse and
+   rebuild is C10/C11's (codec area) and is compared byte-for-byte by the stream. *)
 From Coq Require Import ZArith List Bool.
-From QF Require Import Base.Bytes Session.Types Session.Model Session.Spec Session.LocalProofs.
+From QF Require Import Base.Bytes Session.Types Session.Model Session.Spec Session.LocalProofs Session.ResendProofs Session.StoreProofs.
 Import ListNotations.
 Open Scope Z_scope.
 
@@ -21,3 +25,36 @@ Theorem c03_gap_fill_shape : forall s b e ir, flushing s ->
   let s' := generate_sequence_reset s b e ir in
   flushing s' /\ (exists w, s_wire s' = w :: s_wire s /\ replay_ok (s_msgs s) w /\ o_seq w = b) /\ s_msgs s' = s_msgs s.
 Proof. exact gen_seq_reset_flushing. Qed.
+
+(* the reply is an exact contiguous cover: the trace predicate c03_reply_check accepts what resendMessages writes *)
+Theorem c03_reply_exact_cover : forall s m b e0,
+  flushing s -> mi_beginseq m = FVal b -> mi_endseq m = FVal e0 -> 1 <= b ->
+  let e := clip_end (s_cfg s) (s_snd s) e0 in
+  (if c_disable_persist (s_cfg s) then s_msgs s = [] else b <= e -> lookup_msg e (s_msgs s) <> None) ->
+  exists new, s_wire (resend_messages s b e m) = new ++ s_wire s
+    /\ c03_reply_check (s_cfg s) (s_msgs s) (s_snd s) m (rev new) = [].
+Proof. exact c03_reply_check_model. Qed.
+
+Theorem c03_cover_chain : forall s b e ir,
+  flushing s -> c_disable_persist (s_cfg s) = false ->
+  b <= e -> lookup_msg e (s_msgs s) <> None ->
+  exists new, s_wire (resend_messages s b e ir) = new ++ s_wire s
+    /\ c03_chain (s_msgs s) (mi_refuse ir) b (rev new) = inl (e + 1).
+Proof. exact resend_messages_chain. Qed.
+
+Theorem c03_empty_range_writes_nothing : forall s b e ir,
+  c_disable_persist (s_cfg s) = false -> e < b -> resend_messages s b e ir = s.
+Proof. exact resend_messages_empty_range. Qed.
+
+(* reachable-state invariant: with persistence every number below the next sender number is stored (without: store empty) *)
+Theorem c03_store_complete : forall c es, Forall Complete (run_trace es (init_sess c)).
+Proof. exact trace_complete. Qed.
+
+(* in every state reachable by any event list, the reply to a verified ResendRequest is an exact contiguous cover *)
+Theorem c03_reachable_reply_exact : forall c es s m s1 b e0,
+  In s (init_sess c :: run_trace es (init_sess c)) ->
+  verify_select s m false false true = (s1, None) -> flushing s1 ->
+  mi_beginseq m = FVal b -> mi_endseq m = FVal e0 -> 1 <= b ->
+  exists new, s_wire (resend_messages s1 b (clip_end (s_cfg s1) (s_snd s1) e0) m) = new ++ s_wire s1
+    /\ c03_reply_check (s_cfg s1) (s_msgs s1) (s_snd s1) m (rev new) = [].
+Proof. exact reachable_reply_exact. Qed.
